@@ -20,6 +20,7 @@ import (
 	"github.com/btcsuite/btcd/chaincfg"
 	"github.com/btcsuite/btcd/chaincfg/chainhash"
 	"github.com/btcsuite/btcd/wire"
+	neohelper "github.com/joeqian10/neo-gogogo/helper"
 	n3lblock "github.com/joeqian10/neo3-gogogo-legacy/block"
 	n3lcrypto "github.com/joeqian10/neo3-gogogo-legacy/crypto"
 	n3lhelper "github.com/joeqian10/neo3-gogogo-legacy/helper"
@@ -27,6 +28,7 @@ import (
 	n3lkeys "github.com/joeqian10/neo3-gogogo-legacy/keys"
 	n3lsc "github.com/joeqian10/neo3-gogogo-legacy/sc"
 	n3ltx "github.com/joeqian10/neo3-gogogo-legacy/tx"
+	neo3helper "github.com/joeqian10/neo3-gogogo/helper"
 	"github.com/polynetwork/poly/native/service/header_sync/zilliqa"
 	"github.com/polynetwork/poly/native/service/utils"
 	stc "github.com/starcoinorg/starcoin-go/client"
@@ -74,18 +76,22 @@ func genBtc() *routerCase {
 	}
 	g2 := mk(chainhash.Hash{9}, 2, pastTime)
 	h := mk(g.BlockHash(), 3, pastTime+600)
+	g0 := mk(chainhash.Hash{7}, 4, pastTime)
+	h0 := mk(g0.BlockHash(), 5, pastTime+600)
 	net := make([]byte, 8)
 	binary.LittleEndian.PutUint64(net, uint64(utils.TyRegtest))
 	return &routerCase{name: "btc", router: utils.BTC_ROUTER, ccmc: net,
 		g1: btcRoot(&g, 100), g2: btcRoot(g2, 200), hdr: [][]byte{btcSer(h)},
-		hdrNote: "child of G1 mined at the regtest proof-of-work limit"}
+		hdrNote: "child of G1 mined at the regtest proof-of-work limit",
+		g0:      btcRoot(g0, 0), g0Note: "height 0", hdr0: [][]byte{btcSer(h0)}, hdr0Note: "mined child (height 1) of G0",
+		gzNote: "none: a btc trust root is a fixed 80-byte header + height; G0 is the boundary genesis"}
 }
 
 // ---------------------------------------------------------------------------------------------
 // zilliqa: /repo/native/service/header_sync/zilliqa/test_genesis (main-net tx block 1461646 + DS block + DS committee)
 // and the first recorded tx block of test_blocks (real Schnorr co-signatures).
 
-func zilVectors() (g1, g2, h []byte, err error) {
+func zilVectors() (g0, g1, g2, h []byte, err error) {
 	raw, err := src.Read("native/service/header_sync/zilliqa/test_genesis")
 	if err != nil {
 		return
@@ -105,6 +111,12 @@ func zilVectors() (g1, g2, h []byte, err error) {
 	gg.TxBlock.BlockHash[0] ^= 0x55
 	gg.TxBlock.BlockHeader.BlockNum += 1000
 	g2 = mustJSON(gg)
+	// G0: the same (unverified) block relabelled as tx block number 0
+	var g00 zilliqa.TxBlockAndDsComm
+	_ = json.Unmarshal(js, &g00)
+	g00.TxBlock.BlockHash[0] ^= 0xaa
+	g00.TxBlock.BlockHeader.BlockNum = 0
+	g0 = mustJSON(g00)
 	f, err := os.Open(src.Path("native/service/header_sync/zilliqa/test_blocks"))
 	if err != nil {
 		return
@@ -130,13 +142,16 @@ func zilVectors() (g1, g2, h []byte, err error) {
 }
 
 func genZil(name string, router uint64) *routerCase {
-	g1, g2, h, err := zilVectors()
+	g0, g1, g2, h, err := zilVectors()
 	if err != nil {
 		return &routerCase{name: name, router: router, skip: "cannot read the repo's zilliqa test vectors: " + err.Error()}
 	}
 	return &routerCase{name: name, router: router, ccmc: []byte{1, 2, 3}, extra: mustJSON(zilliqa.ExtraInfo{NumOfGuardList: 420}),
 		g1: g1, g2: g2, hdr: [][]byte{h}, hdrOptional: router == utils.ZILLIQA_LEGACY_ROUTER,
-		hdrNote: "first recorded main-net tx block after the recorded genesis (repo test vectors, real Schnorr multi-signature)"}
+		hdrNote: "first recorded main-net tx block after the recorded genesis (repo test vectors, real Schnorr multi-signature)",
+		g0:      g0, g0Note: "tx block number 0 (the recorded genesis relabelled; a genesis is not verified)",
+		hdr0Note: "none: the recorded blocks only extend the recorded genesis (Schnorr co-signatures cannot be synthesised)",
+		gzNote:   "none: G0 is the boundary genesis"}
 }
 
 // ---------------------------------------------------------------------------------------------
@@ -159,6 +174,7 @@ func genStarcoin() *routerCase {
 	}
 	return &routerCase{name: "starcoin", router: utils.STARCOIN_ROUTER, ccmc: []byte{1, 2, 3},
 		g1: mk(1000, 0x10), g2: mk(2000, 0x40),
+		g0: mk(0, 0x70), g0Note: "number 0", hdr0Note: "none (no starcoin header event at all)", gzNote: "none: G0 is the boundary genesis",
 		hdrNote: "no header event: a starcoin header needs cryptonight proof of work against a 24-block difficulty window"}
 }
 
@@ -170,8 +186,14 @@ func genOnt() *routerCase {
 	g1 := ontneo.OntHeader(100, p1, 1, nil)
 	g2 := ontneo.OntHeader(200, p2, 2, nil)
 	h := ontneo.OntHeader(101, p3, 3, []ontneo.OntSigner{{Key: p1[0]}, {Key: p1[1]}, {Key: p1[2]}})
+	p0, p4 := polyenv.KeysFrom(140, 4), polyenv.KeysFrom(144, 4)
+	g0 := ontneo.OntHeader(0, p0, 4, nil)
+	h0 := ontneo.OntHeader(1, p4, 5, []ontneo.OntSigner{{Key: p0[0]}, {Key: p0[1]}, {Key: p0[2]}})
+	gz := ontneo.OntHeader(0, nil, 6, nil)
 	return &routerCase{name: "ont", router: utils.ONT_ROUTER, ccmc: []byte{1, 2, 3}, g1: g1, g2: g2, hdr: [][]byte{h},
-		hdrNote: "key header (new consensus peers) at G1.height+1 signed by 3 of G1's 4 peers"}
+		hdrNote: "key header (new consensus peers) at G1.height+1 signed by 3 of G1's 4 peers",
+		g0:      g0, g0Note: "height 0", hdr0: [][]byte{h0}, hdr0Note: "key header at height 1 signed by 3 of G0's 4 peers",
+		gz: gz, gzNote: "height 0 WITHOUT a consensus configuration (accepted: stores the header, no peer set, empty key-height list)"}
 }
 
 // ---------------------------------------------------------------------------------------------
@@ -186,13 +208,23 @@ func genNeo() *routerCase {
 	g2h, _ := ontneo.NeoHeaderUnsigned(200, c.Hash, 2)
 	hh, msg := ontneo.NeoHeaderUnsigned(101, b.Hash, 3)
 	inv := a.Sign(msg).Invocation([]ontneo.Sig{{K: 0}, {K: 1}, {K: 2}})
+	d := ontneo.NewNeoSet(3, polyenv.KeysFrom(152, 4), polyenv.Key(99))
+	e := ontneo.NewNeoSet(3, polyenv.KeysFrom(156, 4), polyenv.Key(99))
+	g0h, _ := ontneo.NeoHeaderUnsigned(0, d.Hash, 4)
+	h0h, msg0 := ontneo.NeoHeaderUnsigned(1, e.Hash, 5)
+	inv0 := d.Sign(msg0).Invocation([]ontneo.Sig{{K: 0}, {K: 1}, {K: 2}})
+	gzh, _ := ontneo.NeoHeaderUnsigned(300, neohelper.UInt160{}, 6)
 	return &routerCase{name: "neo", router: utils.NEO_ROUTER, ccmc: []byte{1, 2, 3},
 		g1: ontneo.NeoHeaderBytes(gh, []byte{0}, []byte{81}), g2: ontneo.NeoHeaderBytes(g2h, []byte{0}, []byte{81}),
 		hdr:     [][]byte{ontneo.NeoHeaderBytes(hh, inv, a.Script)},
-		hdrNote: "header at G1.index+1 switching NextConsensus, 3-of-4 witness of G1's consensus set"}
+		hdrNote: "header at G1.index+1 switching NextConsensus, 3-of-4 witness of G1's consensus set",
+		g0:      ontneo.NeoHeaderBytes(g0h, []byte{0}, []byte{81}), g0Note: "index 0", hdr0: [][]byte{ontneo.NeoHeaderBytes(h0h, inv0, d.Script)}, hdr0Note: neoH0Note,
+		gz: ontneo.NeoHeaderBytes(gzh, []byte{0}, []byte{81}), gzNote: neoGzNote}
 }
 
 const neo3Magic = 5195086
+const neoH0Note = "header at index 1 switching NextConsensus, 3-of-4 witness of G0's consensus set"
+const neoGzNote = "index 300 with an all-zero NextConsensus script hash (accepted by the handler)"
 
 func genNeo3() *routerCase {
 	a := ontneo.NewNeo3Set(3, polyenv.KeysFrom(64, 4), polyenv.Key(99))
@@ -202,10 +234,18 @@ func genNeo3() *routerCase {
 	g2h, _ := ontneo.Neo3HeaderUnsigned(200, c.Hash, 2, neo3Magic)
 	hh, msg := ontneo.Neo3HeaderUnsigned(101, b.Hash, 3, neo3Magic)
 	inv := a.Sign(msg).Invocation([]ontneo.Sig{{K: 0}, {K: 1}, {K: 2}})
+	d := ontneo.NewNeo3Set(3, polyenv.KeysFrom(164, 4), polyenv.Key(99))
+	e := ontneo.NewNeo3Set(3, polyenv.KeysFrom(168, 4), polyenv.Key(99))
+	g0h, _ := ontneo.Neo3HeaderUnsigned(0, d.Hash, 4, neo3Magic)
+	h0h, msg0 := ontneo.Neo3HeaderUnsigned(1, e.Hash, 5, neo3Magic)
+	inv0 := d.Sign(msg0).Invocation([]ontneo.Sig{{K: 0}, {K: 1}, {K: 2}})
+	gzh, _ := ontneo.Neo3HeaderUnsigned(300, neo3helper.NewUInt160(), 6, neo3Magic)
 	return &routerCase{name: "neo3", router: utils.NEO3_ROUTER, ccmc: []byte{1, 2, 3}, extra: ontneo.MagicBytes(neo3Magic),
 		g1: ontneo.Neo3HeaderBytes(gh, []byte{0}, []byte{81}), g2: ontneo.Neo3HeaderBytes(g2h, []byte{0}, []byte{81}),
 		hdr:     [][]byte{ontneo.Neo3HeaderBytes(hh, inv, a.Script)},
-		hdrNote: "header at G1.index+1 switching NextConsensus, 3-of-4 witness of G1's consensus set (network magic from ExtraInfo)"}
+		hdrNote: "header at G1.index+1 switching NextConsensus, 3-of-4 witness of G1's consensus set (network magic from ExtraInfo)",
+		g0:      ontneo.Neo3HeaderBytes(g0h, []byte{0}, []byte{81}), g0Note: "index 0", hdr0: [][]byte{ontneo.Neo3HeaderBytes(h0h, inv0, d.Script)}, hdr0Note: neoH0Note,
+		gz: ontneo.Neo3HeaderBytes(gzh, []byte{0}, []byte{81}), gzNote: neoGzNote}
 }
 
 // neo3legacy uses the frozen github.com/joeqian10/neo3-gogogo-legacy types (header without nonce).
@@ -266,18 +306,27 @@ func genNeo3Legacy() *routerCase {
 	gh, _ := n3lHeader(100, a.hash, 1)
 	g2h, _ := n3lHeader(200, c.hash, 2)
 	hh, msg := n3lHeader(101, b.hash, 3)
-	var inv bytes.Buffer
-	for _, p := range a.pairs[:3] {
-		sig, err := p.Sign(msg)
-		if err != nil {
-			panic(err)
+	witness := func(s *n3lSet, msg []byte) []byte {
+		var inv bytes.Buffer
+		for _, p := range s.pairs[:3] {
+			sig, err := p.Sign(msg)
+			if err != nil {
+				panic(err)
+			}
+			inv.WriteByte(0x0c)
+			inv.WriteByte(0x40)
+			inv.Write(sig)
 		}
-		inv.WriteByte(0x0c)
-		inv.WriteByte(0x40)
-		inv.Write(sig)
+		return inv.Bytes()
 	}
+	d, e := newN3lSet(3, polyenv.KeysFrom(176, 4)), newN3lSet(3, polyenv.KeysFrom(180, 4))
+	g0h, _ := n3lHeader(0, d.hash, 4)
+	h0h, msg0 := n3lHeader(1, e.hash, 5)
+	gzh, _ := n3lHeader(300, n3lhelper.NewUInt160(), 6)
 	return &routerCase{name: "neo3legacy", router: utils.NEO3_LEGACY_ROUTER, ccmc: []byte{1, 2, 3}, extra: n3lhelper.UInt32ToBytes(neo3Magic),
 		g1: n3lBytes(gh, []byte{0}, []byte{81}), g2: n3lBytes(g2h, []byte{0}, []byte{81}),
-		hdr:     [][]byte{n3lBytes(hh, inv.Bytes(), a.script)},
-		hdrNote: "header at G1.index+1 switching NextConsensus, 3-of-4 witness of G1's consensus set (legacy N3 header format)"}
+		hdr:     [][]byte{n3lBytes(hh, witness(a, msg), a.script)},
+		hdrNote: "header at G1.index+1 switching NextConsensus, 3-of-4 witness of G1's consensus set (legacy N3 header format)",
+		g0:      n3lBytes(g0h, []byte{0}, []byte{81}), g0Note: "index 0", hdr0: [][]byte{n3lBytes(h0h, witness(d, msg0), d.script)}, hdr0Note: neoH0Note,
+		gz: n3lBytes(gzh, []byte{0}, []byte{81}), gzNote: neoGzNote}
 }
